@@ -93,7 +93,7 @@ def cells(tier, seed):
     for si in (0, 2, 25, 41, 43):
         for n in range(1, b["gap_len"] + 2):
             out.append({"k": "eof", "seed": si, "n": n})
-    for sp in ("dec", "hex", "HEX", "bin", "under", "hexunder"):
+    for sp in ("dec", "hex", "HEX", "bin", "under", "hexunder", "binunder"):
         out.append({"k": "ints", "sp": sp})
     for n in range(0, b["string_len"] + 1):
         for sp in ("single", "double", "hexesc"):
@@ -186,13 +186,34 @@ def run(ctx, cell):
             v = ((ds[0] * 16 + ds[1]) * 16 + ds[2]) * 16 + ds[3]
             cs = [hexdigit(ctx, d, sp == "HEX") for d in ds]
             text = "0x" + cs[0] + cs[1] + ("_" if sp == "hexunder" else "") + cs[2] + cs[3]
-        elif sp == "bin":
-            ds = [ctx.int("d%d" % i, 0, 1) for i in range(10)]
+            if sp == "hexunder":
+                # one more run of one or two underscores at a symbolic place: right after the prefix, between any
+                # two digits or at the end (the value of a literal is the value of its digits)
+                gap = ctx.choice("gap", 5)
+                us = "_" * (1 + ctx.choice("us", 2))
+                parts = ["0x"] + cs
+                text = parts[0]
+                for i in range(4):
+                    if gap == i:
+                        text = text + us
+                    text = text + parts[1 + i]
+                    if i == 1:
+                        text = text + "_"
+                if gap == 4:
+                    text = text + us
+        elif sp in ("bin", "binunder"):
+            ds = [ctx.int("d%d" % i, 0, 1) for i in range(10 if sp == "bin" else 5)]
+            gap = ctx.choice("gap", len(ds) + 1) if sp == "binunder" else -1
+            us = "_" * (1 + ctx.choice("us", 2)) if sp == "binunder" else ""
             v = 0
             text = "0b"
-            for d in ds:
+            for i, d in enumerate(ds):
+                if gap == i:
+                    text = text + us
                 v = v * 2 + d
                 text = text + schr(d + 48)
+            if gap == len(ds):
+                text = text + us
         else:
             ds = [ctx.int("d0", 1, 9)] + [ctx.int("d%d" % i, 0, 9) for i in range(1, 5)]
             v = 0
@@ -202,6 +223,9 @@ def run(ctx, cell):
                 text = text + schr(d + 48)
                 if sp == "under" and i in (1, 3):
                     text = text + "_"
+            if sp == "under":
+                # trailing and doubled underscores are spellings of the same number too
+                text = text + "_" * ctx.choice("trail", 3)
         out = run_ckl(text)
         if out.kind != "ok":
             ctx.fail("C14:ints:%s:%s" % (sp, out.kind), lambda: {"text": str(text), "exc": str(out.exc)})
